@@ -23,6 +23,7 @@ import DymVerif.Lemmas.CoreBlocks
 import DymVerif.Props.C02
 import DymVerif.Props.C08
 import DymVerif.Props.C14
+import DymVerif.Lemmas.CoreOwners
 namespace DymVerif.C11
 open DymVerif DymVerif.Core DymVerif.Core.Roles
 
@@ -86,6 +87,64 @@ theorem lockup_end_block_never_fails (p : Lockup.Params) (bal : Lockup.Actor →
     (ops : List Lockup.Op) :
     (Lockup.step p (Lockup.run p (Lockup.init bal now height) ops) .endBlock).2 = .ok 0 :=
   C14.endBlock_never_panics p (C14.reachable_inv p bal now height ops)
+
+-- ---------------------------------------------------------------- rollapp owners (payout recipients)
+
+/-- **transfer_only_by_owner** (C20-style): an accepted `MsgTransferOwnership` was signed by the rollapp's
+    current owner, names a different and non-blocked new owner, and changes nothing but the `owner` field
+    of that one rollapp record; any other signer is refused with `unauthorized` and nothing changes. -/
+theorem transfer_only_by_owner (s s' : St) (sg : Addr) (ra : Nat) (no : Addr)
+    (h : apply s (.transferOwner sg ra no) = .ok s') :
+    ∃ r, getRa s ra = some r ∧ r.owner = sg ∧ r.owner ≠ no ∧ blockedAddr no = false ∧
+      s' = setRa s { r with owner := no } :=
+  transferOwner_ok (show transferOwner s sg ra no = .ok s' from h)
+
+theorem transfer_by_non_owner_refused (s : St) (sg : Addr) (ra : Nat) (no : Addr) (r : Rollapp)
+    (hg : getRa s ra = some r) (hne : r.owner ≠ sg) :
+    (step s (.transferOwner sg ra no)).2 = some .unauthorized ∧ (step s (.transferOwner sg ra no)).1 = s := by
+  have : apply s (.transferOwner sg ra no) = .error .unauthorized := by
+    show transferOwner s sg ra no = _
+    unfold transferOwner
+    rw [hg]
+    simp [hne]
+  unfold step; rw [this]; exact ⟨rfl, rfl⟩
+
+/-- a transfer to an address the bank refuses as a recipient is refused, whoever signs (fix 64b101c36) -/
+theorem transfer_to_blocked_refused (s : St) (sg : Addr) (ra : Nat) (no : Addr) (hb : blockedAddr no = true) :
+    ∃ e, (step s (.transferOwner sg ra no)).2 = some e ∧ (step s (.transferOwner sg ra no)).1 = s := by
+  have : ∃ e, apply s (.transferOwner sg ra no) = .error e := by
+    show ∃ e, transferOwner s sg ra no = .error e
+    unfold transferOwner
+    cases getRa s ra with
+    | none => exact ⟨_, rfl⟩
+    | some r =>
+      dsimp only
+      by_cases h1 : (r.owner != sg) = true
+      · exact ⟨_, by rw [if_pos h1]⟩
+      · by_cases h2 : (r.owner == no) = true
+        · exact ⟨_, by rw [if_neg h1, if_pos h2]⟩
+        · exact ⟨_, by rw [if_neg h1, if_neg h2, if_pos hb]⟩
+  obtain ⟨e, he⟩ := this
+  exact ⟨e, by unfold step; rw [he], by unfold step; rw [he]⟩
+
+/-- **owners_not_blocked** — in every reachable state of M-Core (any parameters, any op sequence with
+    ownership transfers, rollapps created by non-module accounts) no rollapp owner is an address the bank
+    refuses to credit: the payout of a rollapp gauge to the owner (x/incentives, at epoch end inside the
+    streamer's EndBlock) cannot fail for that reason — see `Props/C11Incent.streamer_end_block_never_fails`. -/
+theorem owners_not_blocked (p : Params) (ops : List Op) (hc : ∀ o ∈ ops, Owners.creatorOk o) (r : Rollapp)
+    (hr : r ∈ (run p ops).ras) : blockedAddr r.owner = false :=
+  Owners.run_owners p ops hc r hr
+
+/-- the hypothesis on creators is needed (and is all that is needed): a rollapp "created by" a blocked
+    address would be owned by it -/
+example : ((run (C02.exParams 2) [.createRollapp 0 900 1]).ras.map fun r => blockedAddr r.owner) = [true] := by decide
+
+/-- ownership moves, the old owner cannot move it back, a blocked address is refused -/
+example : ((run (C02.exParams 2) [.createRollapp 0 9 1, .transferOwner 9 0 5]).ras.map (·.owner)) = [5] ∧
+    (step (run (C02.exParams 2) [.createRollapp 0 9 1, .transferOwner 9 0 5]) (.transferOwner 9 0 9)).2 = some .unauthorized ∧
+    (step (run (C02.exParams 2) [.createRollapp 0 9 1]) (.transferOwner 9 0 900)).2 = some .invalid ∧
+    (step (run (C02.exParams 2) [.createRollapp 0 9 1]) (.transferOwner 9 0 9)).2 = some .invalid ∧
+    (step (run (C02.exParams 2) [.createRollapp 0 9 1]) (.transferOwner 9 1 5)).2 = some .unknownRollapp := by decide
 
 -- ---------------------------------------------------------------- non-vacuity
 /-- a reachable state with a due notice-queue entry: the sequencer's record is there and the block runs -/
